@@ -278,10 +278,11 @@ def drv_race(tier, seed, ctx):
     from vcheck import evaluate, VERIF, GOENV
     hr = os.path.join(ctx['tmp'], 'harness-race')
     from vcheck import modfile_args
+    # the race detector needs cgo (the other builds are made without it)
     b = subprocess.run(['go', 'build'] + modfile_args(ctx['tmp']) + ['-race', '-tags', 'verif', '-o', hr, '.'], cwd=os.path.join(VERIF, 'harness'),
-                       env=GOENV, capture_output=True, text=True)
+                       env=dict(GOENV, CGO_ENABLED='1'), capture_output=True, text=True)
     if b.returncode != 0:
-        return [], ['race build failed (no verdict from the race detector): ' + b.stderr[-300:]]
+        return [], ['BROKEN: race build failed (no verdict from the race detector): ' + b.stderr[-300:]]
     n = 240 if tier == 'quick' else 3000
     g = subprocess.run([ctx['harness'], 'gen', 'matcher', str(seed * 31 + 5), str(n)], capture_output=True, text=True, env=GOENV)
     cases = [l.split(' => ')[0] for l in g.stdout.splitlines() if l.startswith('matcher conc') or l.startswith('matcher scan')]
